@@ -33,6 +33,7 @@ func VerifC10Threads() {
 	var wg sync.WaitGroup
 	var newTables []RWTable[*vobj]
 	commits := make([][3]int, T)
+	writes := make([][3]int, T) // committed inserts per table (a list with duplicates writes the same object again)
 	for th := 0; th < T; th++ {
 		th := th
 		kind := vnd.IntRange("kind", 0, vnd.Param("KINDMAX", 1))
@@ -55,6 +56,7 @@ func VerifC10Threads() {
 					w.Commit()
 					seen := [3]bool{}
 					for _, i := range c10lists[li] {
+						writes[th][i]++
 						if !seen[i] {
 							commits[th][i]++
 							seen[i] = true
@@ -91,13 +93,14 @@ func VerifC10Threads() {
 	wg.Wait()
 	rt = db.ReadTxn()
 	for i := range tables {
-		want := 0
+		want, wantRev := 0, 0
 		for th := range commits {
 			want += commits[th][i]
+			wantRev += writes[th][i]
 		}
 		vnd.Assert(tables[i].NumObjects(rt) == want, "C05.threads.no-lost-write")
 		// every committed insert got its own revision; writers of other tables do not disturb it
-		vnd.Assert(tables[i].Revision(rt) == uint64(want), "C09.threads.revision")
+		vnd.Assert(tables[i].Revision(rt) == uint64(wantRev), "C09.threads.revision")
 		last := uint64(0)
 		for _, rev := range tables[i].LowerBound(rt, ByRevision[*vobj](0)) {
 			vnd.Assert(rev > last, "C09.threads.revisions-distinct")
